@@ -472,11 +472,19 @@ pub fn check_cache_control(what: &str, raw: &RawResp) -> Option<Mismatch> {
 
 /// Execute a well-formed protocol request through HTTP on this thread's app.
 pub fn call_http(inst: &Instance, app: &HttpApp, req: &Req, chunking: &Chunking) -> (Resp, Option<RawResp>, Vec<Mismatch>) {
-    SKEW_US.with(|s| s.set(inst.skew_us));
     let w = match wire_for(req, chunking) {
         Some(w) => w,
-        None => return (inst.call_lib(req), None, vec![]),
+        None => {
+            SKEW_US.with(|s| s.set(inst.skew_us));
+            return (inst.call_lib(req), None, vec![]);
+        }
     };
+    call_http_wire(inst, app, req, w)
+}
+
+/// Send an explicit wire form of protocol request `req` and decode the answer for it.
+pub fn call_http_wire(inst: &Instance, app: &HttpApp, req: &Req, w: WireReq) -> (Resp, Option<RawResp>, Vec<Mismatch>) {
+    SKEW_US.with(|s| s.set(inst.skew_us));
     match app.send(w) {
         Ok(raw) => {
             let (resp, mut mm) = decode(req, &raw);
